@@ -12,7 +12,7 @@ use oq3_parser::{LexedStr, StrStep, TopEntryPoint};
 pub fn meta() -> Meta {
     Meta {
         level: "exploration",
-        rule: "every string of at most k atoms over five 14-symbol critical alphabets (E-CHAR), every token sequence of at most L tokens over the full lexer-producible token alphabet derived from SyntaxKind (E-TOK, spaced, tight and comment-separated renderings; text level through both parse entry points, parser level without tree building for the longest length), and the scaling families E-SCALE; each input enumerated once; non-trivial = the tree contains at least one statement node; outcomes = distinct tree shapes",
+        rule: "every string of at most k atoms over eleven 14-symbol critical alphabets (E-CHAR), every token sequence of at most L tokens over the full lexer-producible token alphabet derived from SyntaxKind (E-TOK, spaced, tight and comment-separated renderings; text level through both parse entry points, parser level without tree building for the longest length), and the scaling families E-SCALE; each input enumerated once; non-trivial = the tree contains at least one statement node; outcomes = distinct tree shapes",
         assumptions: vec![
             "strict build profile: debug assertions and overflow checks on",
             "hook oq3_verif: idle counter of the parser turns a non-consuming grammar loop into a panic; counters give look-aheads and events per token",
